@@ -56,8 +56,8 @@ def wrappers(pp, rng):
         lambda a: a.copy().ignore(pp.python_style_comment), lambda a: a.copy().ignore(pp.c_style_comment),
         lambda a: a.copy().set_parse_action(lambda t: None), lambda a: a.copy().add_parse_action(lambda s, l, t: t[0] if t else None),
         lambda a: a.copy().add_condition(lambda t: len(t) < 2), lambda a: a.copy().add_parse_action(pp.token_map(str)),
-        lambda a: a.copy().add_parse_action(pp.replace_with("R")), lambda a: a.copy().add_parse_action(pp.remove_quotes),
-        lambda a: pp.match_only_at_col(2) and a.copy().add_parse_action(pp.match_only_at_col(2)),
+        lambda a: a.copy().add_parse_action(pp.replace_with("R")),
+        lambda a: a.copy().add_parse_action(pp.match_only_at_col(2)),
         lambda a: a.copy().parse_with_tabs(), lambda a: pp.dict_of(pp.Word("ab"), a), lambda a: a.copy().set_name("N"),
         lambda a: a.copy().set_fail_action(lambda s, l, e, err: None), lambda a: pp.rest_of_line + a, lambda a: ... + a,
         lambda a: a + ... + pp.Literal(";"),
@@ -67,9 +67,8 @@ def wrappers(pp, rng):
         lambda a, b: pp.Each([a, pp.Opt(b)]), lambda a, b: pp.Each([pp.OneOrMore(a), pp.ZeroOrMore(b)]),
         lambda a, b: pp.OneOrMore(a, stop_on=b), lambda a, b: a[..., b], lambda a, b: pp.SkipTo(a, fail_on=b),
         lambda a, b: pp.SkipTo(a, ignore=b), lambda a, b: pp.DelimitedList(a, delim=b), lambda a, b: pp.nested_expr(a, b),
-        lambda a, b: pp.dict_of(a, b), lambda a, b: a + pp.Suppress(...) + b, lambda a, b: pp.Or([a, b, a + b]),
+        lambda a, b: pp.dict_of(a, b), lambda a, b: a + (pp.Suppress(...) + b), lambda a, b: pp.Or([a, b, a + b]),
         lambda a, b: pp.MatchFirst([a + b, a, b]), lambda a, b: pp.And([a, pp.Opt(b), a]),
-        lambda a, b: pp.counted_array(a, int_expr=b),
     ]
     return W1, W2
 
